@@ -124,6 +124,7 @@ def evalStateless (tag : String) (a : List String) : Option (String × String) :
     match Core.allocScan us (us.length + 4) (natArg next) with
     | some (id, nx) => some (s!"{id} {nx % 4294967296}", if natArg next % 2147483648 == 0 then "skip-zero" else if us.contains (natArg next % 2147483648) then "skip-used" else "direct")
     | none => some ("exhausted", "exhausted")
+  | "race.run", [_] => some ("done", "done")   -- a stress scenario must run to completion (no deadlock, no panic)
   | "pool.new", [sz] =>
     -- observed: "<len> <hlen> <cap>"; the model gives the admissible capacities (checkPool)
     if sz.isEmpty then none else none
